@@ -56,17 +56,69 @@ def gen_world(rng, tier):
                 cands = [c for c in comp if c > s]  # may close a cycle
             if cands:
                 depends.append([s, rng.choice(cands)])
-    hybrid = [s for s in structs if rng.random() < 0.25]
+    # classes derived from other classes (named arrays `class Position(Vec3)`, structs deriving
+    # from structs and declaring their own fields), used next to their bases
+    counter = len(schema)
+    for _ in range(rng.choice([0, 0, 1, 2])):
+        arrays = [i for i, ty in enumerate(schema) if ty["k"] == "array" and not ty.get("base")]
+        sts = [i for i, ty in enumerate(schema) if ty["k"] == "struct" and not ty.get("base")]
+        if arrays and (rng.random() < 0.5 or not sts):
+            b = rng.choice(arrays)
+            schema.append(dict(schema[b], name=f"D{counter}", decl="derived", base=b))
+        elif sts:
+            b = rng.choice(sts)
+            sc = [i for i, ty in enumerate(schema) if ty["k"] == "sc"]
+            schema.append({"k": "struct", "name": f"D{counter}", "fields": [["g0", rng.choice(sc)], ["g1", rng.choice(comp) if comp and rng.random() < 0.5 else rng.choice(sc)]], "decl": "derived", "base": b})
+        else:
+            break
+        d = len(schema) - 1
+        counter += 1
+        if schema[d]["k"] == "struct" and rng.random() < 0.5:
+            schema.append({"k": "ref", "to": d})
+            dref = len(schema) - 1
+        else:
+            dref = d
+        pair = [["u0", b], ["u1", dref]]
+        if rng.random() < 0.5:
+            pair.reverse()
+        schema.append({"k": "struct", "name": f"X{counter}", "fields": pair, "decl": "class"})
+        counter += 1
+    structs = [i for i, ty in enumerate(schema) if ty["k"] == "struct"]
+    comp = [i for i, ty in enumerate(schema) if ty["k"] in ("struct", "array", "uref", "ref")]
+    # a same-named twin of a struct nothing else refers to: "in case of multiple classes with the
+    # same name, the last one is used" — it carries one more dependency than the class it overrides
+    twins = []
+    if rng.random() < 0.3:
+        referenced = set()
+        for i in range(len(schema)):
+            referenced.update(_static_deps(schema, i))
+        referenced.update(b for a, b in depends)
+        free = [i for i in structs if i not in referenced and not schema[i].get("base")]
+        others = [i for i in comp if schema[i]["k"] in ("struct", "array")]
+        if free and others:
+            t1 = rng.choice(free)
+            extra = rng.choice([i for i in others if i != t1] or others)
+            if extra != t1 and t1 not in closure({"schema": schema, "depends": depends}, [extra]):
+                schema.append({"k": "struct", "name": schema[t1]["name"], "fields": list(schema[t1]["fields"]) + [["tw", extra]], "decl": "class", "twin_of": t1})
+                twins.append(len(schema) - 1)
+    hybrid = [s for s in structs if rng.random() < 0.25 and not schema[s].get("base")]
     nops = rng.choice([1, 2, 3, 4]) if tier == "quick" else rng.choice([2, 4, 6])
-    return {"schema": schema, "depends": depends, "hybrid": hybrid, "switches": sw, "omp": rng.choice([0, 0, 0, 2]), "nops": nops}
+    return {"schema": schema, "depends": depends, "hybrid": hybrid, "twins": twins, "switches": sw, "omp": rng.choice([0, 0, 0, 2]), "nops": nops}
 
 
 def gen_op(rng, spec):
     schema = spec["schema"]
-    api = [i for i, ty in enumerate(schema) if ty["k"] in ("struct", "array", "uref")]
+    twins = set(spec.get("twins", []))
+    api = [i for i, ty in enumerate(schema) if ty["k"] in ("struct", "array", "uref") and i not in twins]
     refs = [i for i, ty in enumerate(schema) if ty["k"] == "ref"]
     k = rng.choice([1, 1, 2, 3, 4])
     roots = [rng.choice(api) for _ in range(k)]
+    if twins and rng.random() < 0.6:
+        tw = rng.choice(sorted(twins))
+        t1 = schema[tw]["twin_of"]
+        roots = [r for r in roots if r != t1]
+        pos = rng.randrange(len(roots) + 1)
+        roots[pos:pos] = [t1, tw] if rng.random() < 0.7 else [tw]
     if refs and rng.random() < 0.2:
         roots.insert(rng.randrange(len(roots) + 1), rng.choice(refs))
     if rng.random() < 0.15:
@@ -113,7 +165,10 @@ def _build_one(schema, i, out):
         return xo.String
     if k == "struct":
         data = {f[0]: out[f[1]] for f in ty["fields"]}
-        return type(ty["name"], (xo.Struct,), data)
+        base = out[ty["base"]] if ty.get("decl") == "derived" else xo.Struct
+        return type(ty["name"], (base,), data)
+    if k == "array" and ty.get("decl") == "derived":
+        return type(ty["name"], (out[ty["base"]],), {})
     if k == "array":
         item = out[ty["item"]]
         if ty["decl"] == "sugar":
@@ -135,6 +190,20 @@ def _build_one(schema, i, out):
     if k == "uref":
         return type(ty["name"], (xo.UnionRef,), {"_reftypes": [out[m] for m in ty["members"]]})
     raise ValueError(k)
+
+
+def _static_deps(schema, t):
+    ty = schema[t]
+    k = ty["k"]
+    if k == "struct":
+        return [f[1] for f in ty["fields"]]
+    if k == "array":
+        return [ty["item"]]
+    if k == "ref":
+        return [ty["to"]]
+    if k == "uref":
+        return list(ty["members"])
+    return []
 
 
 def deps_of(spec, t):
@@ -188,7 +257,7 @@ class DepSim:
         "real": ["xobjects.context.sort_classes / topological_sort / sources_from_classes", "T._gen_c_api / _gen_c_decl / _gen_kernels for structs, arrays, refs, unions", "HybridClass metaclass (_XoStruct, _depends_on rewriting)", "ContextCpu.add_kernels / build_kernels / compile_kernel (cffi + gcc)", "specialize_source"],
         "stub": ["xobjects.context_cpu.classes_from_kernels wrapped: returns the same classes as a list in a seeded permutation instead of a set in address-hash order"],
     }
-    not_claimed = {"C14": ["two distinct classes with one name (the library documents 'the last one is used'; the property does not say which API must be emitted)"]}
+    not_claimed = {"C14": ["same-name classes are generated only as explicit roots (a twin that overrides a struct nothing else refers to); same-name classes reached as dependencies are not generated"]}
     assumptions = {"C14": ["the dependency relation is: field types, item type, reference target, union members, declared _depends_on (closure computed by the harness from the schema)", "classes with an API are structs, arrays, references and unions; scalars and String have none"]}
 
     def run(self, prop, profile, rng=None, replay=None, tier="quick"):
@@ -240,10 +309,20 @@ class DepSim:
             viols.append(Viol("C14", oracle, [str(s) for s in sig], detail))
 
         roots = op["roots"]
-        reach = closure(spec, roots)
+        # among roots of one name the last one counts (documented override)
+        last = {}
+        for r in roots:
+            last[names[r]] = r
+        eff = [r for r in roots if last[names[r]] == r]
+        if len(eff) < len(set(roots)):
+            res.probe("same_name_override")
+        reach = closure(spec, eff)
+        allowed_names = {names[t] for t in closure(spec, roots)}
         api = [t for t in reach if schema[t]["k"] in ("struct", "array", "ref", "uref")]
         want_names = {names[t] for t in api}
-        cyc = has_cycle(spec, reach)
+        cyc = has_cycle(spec, closure(spec, roots))
+        if any(schema[t].get("decl") == "derived" for t in api):
+            res.probe("derived_class_reachable")
         res.features.add(f"{op['op']}:n{min(len(api), 12)}:{'cyc' if cyc else 'dag'}:{'dup' if len(set(roots)) < len(roots) else 'nodup'}")
         if cyc:
             res.fault("cycle")
@@ -265,7 +344,7 @@ class DepSim:
                 if cnt[n] > 1:
                     viol("class_api_emitted_twice", [what], f"{n} appears {cnt[n]} times in {listed}")
                     return
-            extra = [n for n in listed if n not in want_names]
+            extra = [n for n in listed if n not in want_names and n not in allowed_names]
             if extra:
                 viol("unreachable_class_emitted", [what], f"{extra} not reachable from {[names[r] for r in roots]}")
                 return
@@ -293,7 +372,9 @@ class DepSim:
         # ---- build
         kern = {}
         for c, r in zip(root_classes, roots):
-            if schema[r]["k"] in ("struct", "array", "uref"):
+            # kernels are declared on the classes that count (an overridden same-name class
+            # contributes its presence in the class list, not accessor declarations)
+            if schema[r]["k"] in ("struct", "array", "uref") and r in eff:
                 kern.update(c._gen_kernels())
         prng = random.Random(op["perm"])
 
